@@ -837,3 +837,34 @@ def opt_take(ev, cx, args):
     ev.callees[cx.site] = cx.callee
     _opt_store(ev, cx, cx.env, cx.path, args[0], NONE, "take")
     return [("val", cx.env, cx.path, old)]
+
+
+@model("try_for_each", "iter")
+def it_try_for_each(ev, cx, args):
+    """Stops at the first element for which the closure's result is a residual (Err / None / Break)."""
+    recv, f = args
+
+    def body(x, env, path, L):
+        out = []
+        for r in _apply(ev, cx, f, (x,), env, path, "f", 1):
+            if r[0] != "val":
+                out.append((r[0], r[1], r[2], None))
+                continue
+            v = r[3]
+            head = None
+            if v[0] == "agg" and v[1] == "adt":
+                head = v[2].rsplit("::", 1)[0]
+            else:
+                head = ev.enum_of.get(v) or (RESULT if "Result" in (cx.callee.inst_path or "") else (OPTION if "Option" in (cx.callee.inst_path or "") else None))
+            if head not in (RESULT, OPTION, CONTROL):
+                return None
+            good = {RESULT: "Ok", OPTION: "Some", CONTROL: "Continue"}[head]
+            sp = ev.split_variant(v, head, r[2], (cx.fid, (cx.bb, "t")))
+            envs = [r[1]] + [dict(r[1]) for _ in sp[1:]]
+            for i, (n, p) in enumerate(sp):
+                out.append(("continue", envs[i], p, None) if n == good else ("break", envs[i], p, v))
+        return out
+
+    res = model_loop(ev, cx, "try_for_each", recv, lambda x, env, path, L: body(x, env, path, L) or [("diverge", env, path, None)],
+                     lambda env, L: ("agg", "adt", RESULT + "::Ok", (UNIT,), ("0",)))
+    return res
